@@ -105,6 +105,34 @@ def apply_rewrites(text, required, optional, log, fnq):
         for (frm, to, _allf) in lst:
             cnt = 0
             start = 0
+            if _allf == 'call':
+                # call rewrite: the regex matches the callee text, ending right before the `(` of the call; the argument
+                # text up to the matching `)` is available to the template as $ARGS (shape-independent: the call may sit in
+                # a `match`, an `if let`, a `let`, span several lines)
+                pat = re.compile(frm, re.S)
+                pos = 0
+                while True:
+                    mt = pat.search(text, pos)
+                    if not mt:
+                        break
+                    if not mask[mt.start()] or mt.end() >= len(text) or text[mt.end()] != '(':
+                        pos = mt.start() + 1
+                        continue
+                    close = rs.match_close(text, mask, mt.end())
+                    args = text[mt.end() + 1:close].strip()
+                    if args.endswith(','):
+                        args = args[:-1].rstrip()
+                    rep = mt.expand(to).replace('$ARGS', args)
+                    whole_old = text[mt.start():close + 1]
+                    if rep.count('\n') < whole_old.count('\n'):
+                        rep = rep + '\n' * (whole_old.count('\n') - rep.count('\n'))
+                    text = text[:mt.start()] + rep + text[close + 1:]
+                    mask = rs.code_mask(text)
+                    pos = mt.start() + len(rep)
+                    cnt += 1
+                if cnt:
+                    log.append({'fn': fnq, 'rule': 'R20', 'from': 'call:' + frm, 'to': to, 'count': cnt})
+                continue
             if _allf == 're':
                 # regex rewrite (DOTALL); every match must start in code
                 pat = re.compile(frm, re.S)
@@ -763,16 +791,28 @@ def gen_fn(out, unit, f, sf, meta, probe):
         if ins.where == 'end':
             edits.append((len(body) - 1, 2, 'insert', tmp, None))
             continue
+        # an anchor may list alternatives `A ||| B` (the same statement in another shape, e.g. `match f(` / `if let Err(e) = f(`):
+        # the first alternative that occurs is used
         pos = -1
-        start = 0
-        for _ in range(ins.nth):
-            while True:
-                pos = body.find(ins.anchor, start)
-                if pos < 0:
-                    raise GenError('%s: insert anchor not found: %r (#%d)' % (fnq, ins.anchor, ins.nth))
-                start = pos + 1
-                if bmask[pos]:
+        for alt in [a_.strip() for a_ in ins.anchor.split('|||')]:
+            pos = -1
+            start = 0
+            ok_ = True
+            for _ in range(ins.nth):
+                while True:
+                    pos = body.find(alt, start)
+                    if pos < 0:
+                        ok_ = False
+                        break
+                    start = pos + 1
+                    if bmask[pos]:
+                        break
+                if not ok_:
                     break
+            if ok_:
+                break
+        if pos < 0:
+            raise GenError('%s: insert anchor not found: %r (#%d)' % (fnq, ins.anchor, ins.nth))
         if ins.where == 'inside':
             # at the start of the block that opens after the anchor (a match arm `PAT => {`, an `if … {`)
             j = pos
